@@ -1,5 +1,6 @@
 use std::collections::HashSet;
 
+use crate::Op;
 use koto_parser::{AstIndex, ConstantIndex, Span};
 use thiserror::Error;
 
@@ -48,6 +49,9 @@ pub(crate) struct Loop {
     // The number of try blocks in the loop's body that are open at the current point,
     // `break` and `continue` need to close them before jumping out of them.
     pub open_try_blocks: usize,
+    // The finishing ops of the sequence and string builders that are open in the loop's body at
+    // the current point, `break` and `continue` need to finish them before jumping out of them.
+    pub open_builders: Vec<Op>,
 }
 
 #[derive(Clone, Debug, PartialEq)]
@@ -341,7 +345,22 @@ impl Frame {
             result_register,
             jump_placeholders: Vec::new(),
             open_try_blocks: 0,
+            open_builders: Vec::new(),
         });
+    }
+
+    // Called after a sequence or string builder has been started (SequenceStart / StringStart)
+    pub fn push_builder(&mut self, finish_op: Op) {
+        if let Some(loop_info) = self.loop_stack.last_mut() {
+            loop_info.open_builders.push(finish_op);
+        }
+    }
+
+    // Called before a sequence or string builder is finished
+    pub fn pop_builder(&mut self) {
+        if let Some(loop_info) = self.loop_stack.last_mut() {
+            loop_info.open_builders.pop();
+        }
     }
 
     // Called when entering a try block (after its TryStart)
